@@ -70,7 +70,7 @@ def ncpu() -> int:
 # JSON helpers
 # ------------------------------------------------------------------------------------------------
 def jsonable(x, depth=0):
-    if depth > 8:
+    if depth > 40:
         return repr(x)[:200]
     if x is None or isinstance(x, (bool, int, str)):
         return x
